@@ -3,6 +3,7 @@
 package verifharness
 
 import (
+	"crypto/sha256"
 	"bytes"
 	"os"
 	"fmt"
@@ -18,8 +19,25 @@ import (
 // by ocaml/hist.ml on the model's three machines.
 
 type snapshot struct {
-	node tree.Node
-	root tree.Root
+	node  tree.Node
+	root  tree.Root
+	shape [32]byte // fingerprint of the node structure: a subtree is not its summary
+}
+
+// rawShape fingerprints the structure and leaf contents below a node (memoised roots ignored):
+// unlike the Merkle root it tells a pair of children from the leaf that summarises them.
+func rawShape(n tree.Node) [32]byte {
+	if f, ok := n.(foreignPair); ok {
+		n = f.PairNode
+	}
+	switch x := n.(type) {
+	case *tree.Root:
+		return sha256.Sum256(append([]byte{0}, x[:]...))
+	case *tree.PairNode:
+		l, r := rawShape(x.LeftChild), rawShape(x.RightChild)
+		return sha256.Sum256(append(append([]byte{1}, l[:]...), r[:]...))
+	}
+	panic("unknown node type")
 }
 
 type hstate struct {
@@ -112,7 +130,7 @@ type hop struct {
 
 func (o hop) Sexp() string {
 	switch o.kind {
-	case "get", "elem", "rootwrite":
+	case "get", "elem", "rootwrite", "repoint", "summ":
 		return fmt.Sprintf("(%s %d %s)", o.kind, o.h, hx(o.i))
 	case "uvalue", "copy", "pop", "htr", "ser", "blen", "len", "sel", "snap", "count", "iter", "next":
 		return fmt.Sprintf("(%s %d)", o.kind, o.h)
@@ -198,6 +216,18 @@ func (s *hstate) exec(o hop) string {
 			return "ERR"
 		}
 		switch o.kind {
+		case "repoint":
+			// the view object is used as a cursor: SetBacking re-points it at the tree of handle
+			// o.i (same type).  Only for views without a parent hook (root, copies, new values):
+			// the handle then holds that value, nothing else changes.
+			if int(o.i) >= len(s.views) || s.tys[o.i].Sexp() != t.Sexp() || !isComposite(t) {
+				return "ERR"
+			}
+			bb := backedBase(vw)
+			if bb == nil || bb.Hook != nil {
+				return "ERR"
+			}
+			return errObs(vw.SetBacking(s.views[o.i].Backing()))
 		case "rootwrite":
 			// the in-place setters of a Root view: the view changes, nothing else may
 			if bv, ok := vw.(view.SmallByteVecView); ok {
@@ -474,7 +504,18 @@ func (s *hstate) exec(o hop) string {
 			return "OK_" + hx(uint64(sel))
 		case "snap":
 			b := vw.Backing()
-			s.snaps = append(s.snaps, snapshot{node: b, root: rawRoot(b, s.h)})
+			s.snaps = append(s.snaps, snapshot{node: b, root: rawRoot(b, s.h), shape: rawShape(b)})
+			return "OK"
+		case "summ":
+			// tree-level use of a backing that was handed out: a summarised version of it is
+			// made (SummarizeInto at generalized index o.i) and kept as one more snapshot; the
+			// tree it was made from, and everything sharing structure with it, stays as it is
+			b := vw.Backing()
+			if link, err := b.SummarizeInto(tree.Gindex64(o.i), s.h); err == nil {
+				if n2, err := link(); err == nil && n2 != nil {
+					s.snaps = append(s.snaps, snapshot{node: n2, root: rawRoot(n2, s.h), shape: rawShape(n2)})
+				}
+			}
 			return "OK"
 		case "memo":
 			if s.checkMemos() {
@@ -536,7 +577,7 @@ func (s *hstate) illTyped(o hop) bool {
 // checkSnaps re-derives every snapshot from the raw node structure.
 func (s *hstate) checkSnaps() bool {
 	for _, sn := range s.snaps {
-		if rawRoot(sn.node, s.h) != sn.root {
+		if rawRoot(sn.node, s.h) != sn.root || rawShape(sn.node) != sn.shape {
 			return false
 		}
 	}
@@ -607,6 +648,7 @@ type histGen struct {
 	memos       bool // C06
 	useDefaults bool // C14: insert Default(nil) views of composite types
 	iters       bool // sub-views also through Iter(): (iter h) opens one, (next k) advances it
+	pending     []hop // ops queued by a multi-step pattern
 }
 
 func currentLen(v view.View, t *Ty) uint64 {
@@ -658,6 +700,11 @@ func (hg *histGen) litFor(t *Ty) srcSpec {
 // next chooses the next op given the live state.
 func (hg *histGen) next(s *hstate) hop {
 	r := hg.r
+	if len(hg.pending) > 0 {
+		o := hg.pending[0]
+		hg.pending = hg.pending[1:]
+		return o
+	}
 	// pick a handle, preferring composite ones
 	h := r.Intn(len(s.views))
 	for tries := 0; tries < 4 && !isComposite(s.tys[h]); tries++ {
@@ -672,6 +719,19 @@ func (hg *histGen) next(s *hstate) hop {
 		return uint64(r.Int63n(int64(n)))
 	}
 	c := r.Intn(100)
+	if r.Intn(25) == 0 && isComposite(t) {
+		if bb := backedBase(s.views[h]); bb != nil && bb.Hook == nil {
+			var cands []int
+			for k, ht := range s.tys {
+				if k != h && ht != nil && ht.Sexp() == t.Sexp() {
+					cands = append(cands, k)
+				}
+			}
+			if len(cands) > 0 {
+				return hop{kind: "repoint", h: h, i: uint64(cands[r.Intn(len(cands))])}
+			}
+		}
+	}
 	if hg.iters {
 		switch x := r.Intn(100); {
 		case x < 5 && (t.Kind == "vec" || t.Kind == "list" || t.Kind == "cont") && !isPackedOrBits(t):
@@ -713,6 +773,23 @@ func (hg *histGen) next(s *hstate) hop {
 			}
 			return hop{kind: "set", h: h, i: i, src: hg.srcFor(s, et)}
 		case "union":
+			// re-tag: the union's own current value (taken out with Value()) is put back under
+			// another selector that carries the same type
+			if u, ok := s.views[h].(*view.UnionView); ok && r.Intn(4) == 0 {
+				sel0, serr := u.Selector()
+				if cur := t.OptionTy(int(sel0)); cur != nil && serr == nil {
+					var twins []int
+					for k := 0; k < t.OptionCount(); k++ {
+						if o := t.OptionTy(k); o != nil && o.Sexp() == cur.Sexp() {
+							twins = append(twins, k)
+						}
+					}
+					if len(twins) > 1 {
+						hg.pending = append(hg.pending, hop{kind: "change", h: h, i: uint64(twins[r.Intn(len(twins))]), src: srcSpec{kind: "h", h: len(s.views)}})
+						return hop{kind: "uvalue", h: h}
+					}
+				}
+			}
 			sel := r.Intn(t.OptionCount())
 			if r.Intn(15) == 0 {
 				sel = t.OptionCount() + r.Intn(2)
@@ -739,7 +816,16 @@ func (hg *histGen) next(s *hstate) hop {
 		return hop{kind: "copy", h: h}
 	case c < 66:
 		if hg.snaps {
-			if r.Intn(2) == 0 {
+			switch r.Intn(5) {
+			case 0, 1:
+				return hop{kind: "snap", h: h}
+			case 2:
+				// snapshot, then (next step) a summarised version made from the same backing
+				d := uint(1 + r.Intn(6))
+				hg.pending = append(hg.pending, hop{kind: "summ", h: h, i: uint64(1)<<d | uint64(r.Int63n(int64(1)<<d))})
+				if r.Intn(2) == 0 {
+					hg.pending = append([]hop{{kind: "htr", h: h}}, hg.pending...)
+				}
 				return hop{kind: "snap", h: h}
 			}
 			return hop{kind: "copy", h: h}
@@ -788,6 +874,7 @@ func (hg *histGen) srcFor(s *hstate, t *Ty) srcSpec {
 // genHistory runs an online-generated history of the given length from an initial value.
 func genHistory(hg *histGen, t *Ty, v *Val, route string, length int, h tree.HashFn) (ops []hop, obs string) {
 	s := &hstate{h: h, count: &hashCalls}
+	hg.pending = nil
 	var root view.View
 	if route == "default" {
 		root = t.Def().Default(nil)
